@@ -161,6 +161,27 @@ pub fn c14(out: &mut Out, rng0: &mut Rng, tier: &Tier) {
             l(vec![bytes(&d.to_ascii_vec()), bytes(disp.as_bytes()), bytes(dbg.as_bytes()), dna(&it), nu(d.len())]),
         );
         out.case("d.to_ascii", l(vec![dstr_v(&d)]), bytes(&d.to_ascii_vec()));
+        // the base iterator under skipping adaptors: Iterator::nth / skip / step_by, mixed with next (seeded change
+        // C14-m8: a cached storage word in next() plus an O(1) nth() that does not refresh it)
+        for _ in 0..3 {
+            let a = rng.below(bs.len() + 3);
+            let stp = 1 + rng.below(6);
+            out.case("s.seq.skip_step", l(vec![dna(&bs), nu(a), nu(stp)]), dna(&d.iter().skip(a).step_by(stp).collect::<Vec<u8>>()));
+            let mut itr = d.iter();
+            let mut got: Vec<u8> = Vec::new();
+            let pre = rng.below(3);
+            for _ in 0..pre {
+                if let Some(x) = itr.next() {
+                    got.push(x);
+                }
+            }
+            let jump = rng.below(40);
+            let landed = itr.nth(jump);
+            got.clear();
+            got.extend(landed);
+            got.extend(itr);
+            out.case("s.seq.skip_step", l(vec![dna(&bs), nu(pre.min(bs.len()) + jump), nu(1)]), dna(&got));
+        }
         if !bs.is_empty() {
             let i = rng.below(bs.len());
             out.case("d.get", l(vec![dstr_v(&d), nu(i)]), n(d.get(i)));
@@ -414,6 +435,71 @@ pub fn c15(out: &mut Out, rng0: &mut Rng, tier: &Tier) {
                     && feed(&owned) == feed(&reference)
                     && guard(|| debruijn::dna_string::ndiffs(&owned, &reference)) == Some(0);
                 out.case("s.sl.owned_eq", l(vec![dna(&bs), opsv()]), b(same));
+            }
+            // structured windows: every start around the storage-word boundaries (31, 32, 33, 63, 64, 65) with lengths
+            // below / at / above one word, forward and reverse-complemented, every rendering (seeded change C15-m8: a
+            // word-wise Display fast path that fires for forward views starting on the LAST base of a word)
+            if len >= 72 {
+                for &st in &[31usize, 32, 33, 63, 64, 65] {
+                    for &ln in &[1usize, 31, 32, 33, 40] {
+                        if st + ln > len {
+                            continue;
+                        }
+                        for rcv in [false, true] {
+                            let mut o2 = vec![SOp::Slice(st, st + ln)];
+                            if rcv {
+                                o2.push(SOp::Rc);
+                            }
+                            let t = apply_chain(&d, &o2);
+                            out.case(
+                                "s.sl",
+                                l(vec![dna(&bs), l(o2.iter().map(sop_v).collect())]),
+                                l(vec![
+                                    dna(&t.iter().collect::<Vec<u8>>()),
+                                    bytes(&t.ascii()),
+                                    bytes(format!("{}", t).as_bytes()),
+                                    bytes(format!("{:?}", t).as_bytes()),
+                                    dna(&t.to_owned().to_bytes()),
+                                    nu(t.len()),
+                                ]),
+                            );
+                            out.case(
+                                "s.sl",
+                                l(vec![dna(&bs), l(o2.iter().map(sop_v).collect())]),
+                                l(vec![
+                                    dna(&t.bytes()),
+                                    bytes(&t.ascii()),
+                                    bytes(t.to_dna_string().as_bytes()),
+                                    bytes(format!("{:?}", t).as_bytes()),
+                                    dna(&(0..t.len()).map(|i| t.get(i)).collect::<Vec<u8>>()),
+                                    nu(t.len()),
+                                ]),
+                            );
+                        }
+                    }
+                }
+            }
+            // the base iterator under skipping adaptors (Iterator::nth / skip / step_by), on the view and on its string
+            for _ in 0..4 {
+                let a = rng.below(s.len() + 3);
+                let stp = 1 + rng.below(5);
+                out.case(
+                    "s.seq.skip_step",
+                    l(vec![dna(&s.bytes()), nu(a), nu(stp)]),
+                    dna(&s.iter().skip(a).step_by(stp).collect::<Vec<u8>>()),
+                );
+                let a2 = rng.below(len + 3);
+                out.case(
+                    "s.seq.skip_step",
+                    l(vec![dna(&bs), nu(a2), nu(stp)]),
+                    dna(&d.iter().skip(a2).step_by(stp).collect::<Vec<u8>>()),
+                );
+                let mut it = d.iter();
+                let first = it.nth(a2);
+                let rest: Vec<u8> = it.collect();
+                let mut got: Vec<u8> = first.into_iter().collect();
+                got.extend(rest);
+                out.case("s.seq.skip_step", l(vec![dna(&bs), nu(a2), nu(1)]), dna(&got));
             }
             c15_kmers::<debruijn::kmer::Kmer5>(out, &mut rng, &d, &bs, &ops, &s);
             c15_kmers::<debruijn::kmer::Kmer16>(out, &mut rng, &d, &bs, &ops, &s);
